@@ -304,6 +304,57 @@ func classifyLoop(p *Prog, fn *ssa.Function, li *loopInfo, pf map[*ssa.Function]
 			return "L5 shrinking", "the loop runs while " + loc + " is non-empty and every trip stores a strictly shorter prefix of it back (no other write to it in the loop)"
 		}
 	}
+	// L6: the loop runs while a slice/string register is long enough and every trip drops a non-empty prefix of it
+	for _, ex := range exits {
+		bo, ok := ex.cond.(*ssa.BinOp)
+		if !ok {
+			continue
+		}
+		lc, ok := bo.X.(*ssa.Call)
+		if !ok {
+			continue
+		}
+		if bi, ok := lc.Call.Value.(*ssa.Builtin); !ok || bi.Name() != "len" {
+			continue
+		}
+		if _, isC := constInt(bo.Y); !isC {
+			continue
+		}
+		switch bo.Op {
+		case token.GTR, token.GEQ, token.NEQ:
+		default:
+			continue
+		}
+		ph, ok := lc.Call.Args[0].(*ssa.Phi)
+		if !ok || ph.Block() != li.header {
+			continue
+		}
+		good := true
+		for i, e := range ph.Edges {
+			if !li.blocks[li.header.Preds[i]] {
+				continue
+			}
+			sl, ok := e.(*ssa.Slice)
+			if !ok || sl.X != ssa.Value(ph) || sl.Low == nil {
+				good = false
+				break
+			}
+			base, k := linear(sl.Low)
+			if c, isC := constInt(base); isC {
+				k += c
+			} else if !nonNegByType(base) {
+				good = false
+				break
+			}
+			if k < 1 {
+				good = false
+				break
+			}
+		}
+		if good {
+			return "L6 consuming", fmt.Sprintf("the loop runs while %s is long enough and every trip continues with %s[n:], n ≥ 1: its length strictly decreases", phiName(ph), phiName(ph))
+		}
+	}
 	return "", "no monotone induction variable against an invariant bound, and no exit controlled by an input-consuming call executed on every trip"
 }
 
